@@ -62,6 +62,41 @@ def check_structure(ck):
                           f"{t}.* caches with {t}_geom.npz only")
         if ncache == 0:
             ck.tie_broken("structure", f"{t}.py:kernels", "no cache=True kernel found")
+        # the table is read at first use, not at import (model: FirstUse loads the CURRENT table, Import only checks freshness)
+        try:
+            mod = ast.parse(txt)
+        except Exception as e:
+            ck.tie_broken("structure", f"{t}.py", f"cannot parse: {e}")
+            continue
+        def direct_calls(body):
+            """names called by statements of `body` without entering nested function definitions"""
+            out = []
+            stack = list(body)
+            while stack:
+                n = stack.pop()
+                if isinstance(n, (ast.FunctionDef, ast.AsyncFunctionDef, ast.Lambda)):
+                    continue
+                if isinstance(n, ast.Call) and isinstance(n.func, ast.Name):
+                    out.append(n.func.id)
+                stack.extend(ast.iter_child_nodes(n))
+            return out
+        top_fns = {f.name: f for f in mod.body if isinstance(f, ast.FunctionDef)}
+        at_import = direct_calls([st for st in mod.body if not isinstance(st, ast.FunctionDef)])
+        # decorators of top-level functions run at import too
+        for f in top_fns.values():
+            at_import += direct_calls(f.decorator_list)
+        seen = set()
+        frontier = list(at_import)
+        while frontier:
+            nm = frontier.pop()
+            if nm in seen or nm not in top_fns:
+                seen.add(nm); continue
+            seen.add(nm)
+            frontier += direct_calls(top_fns[nm].body)
+        info[f"{t}.py"]["runs_at_import"] = sorted(n for n in seen if n in top_fns)
+        if "_ensure_loaded" in seen or "load" in direct_calls([st for st in mod.body if not isinstance(st, ast.FunctionDef)]):
+            ck.tie_broken("structure", f"{t}.py:lazy-load", f"{t}.py reads its table while the module is imported (`_ensure_loaded` is reachable "
+                          "from module-level code); the model loads the current table at first use in a process")
     others = []
     for p in sorted(vlib.SRC.rglob("*.py")):
         if p.parent == gd and p.stem in tn:
